@@ -337,14 +337,23 @@ func genC29(t *rapid.T) c29Case {
 			// idx: distinct per source so the oracle can tell who won
 			val := c29MakeVal(s, i+1, n, valid)
 			as := c29Assign{Src: a.kind, Setting: s.Path, Level: a.level, Name: a.name, Val: val, Valid: valid}
-			if strings.HasPrefix(a.kind, "file") && s.StringLike && s.Class != "memsize" {
-				mode := rapid.SampledFrom([]int{0, 0, 0, 1, 1, 2, 3, 4, 5, 6}).Draw(t, "refmode")
+			if s.StringLike && s.Class != "memsize" {
+				// references are placed in file values and - less often - in values delivered by a flag or an
+				// env var (README: expansion happens "after processing any command lines")
+				modes := []int{0, 0, 0, 1, 1, 2, 3, 4, 5, 6}
+				if !strings.HasPrefix(a.kind, "file") {
+					modes = []int{0, 0, 0, 0, 0, 0, 1, 1, 2, 3, 4, 5}
+				}
+				mode := rapid.SampledFrom(modes).Draw(t, "refmode")
 				if mode == 6 && !(s.Class == "free" || s.Class == "list:free" || s.Class == "map") {
 					mode = 1
 				}
 				if mode != 0 {
 					set := []bool{rapid.IntRange(0, 4).Draw(t, "set0") > 0, rapid.IntRange(0, 4).Draw(t, "set1") > 0}
 					base := fmt.Sprintf("C29V_%s_%s", strings.ToUpper(strings.ReplaceAll(s.Path, ".", "_")), strings.ToUpper(a.kind))
+					if !strings.HasPrefix(a.kind, "file") {
+						base += fmt.Sprintf("%d%d", a.level, i)
+					}
 					switch {
 					case val.L != nil:
 						j := rapid.IntRange(0, len(val.L)-1).Draw(t, "elem")
@@ -572,7 +581,10 @@ func c29Eval(assigns []c29Assign, vars map[string]string, locVia string, flagEq 
 					if lv.DocOnly[n] {
 						src = "flag-doc"
 					}
-					fl = append(fl, cand(src, a, false))
+					fl = append(fl, cand(src, a, true))
+					if c29HasRef(a.Val) {
+						e.All = append(e.All, cand(src+"-raw", a, false))
+					}
 				}
 			}
 			for _, n := range lv.Envs {
@@ -581,7 +593,10 @@ func c29Eval(assigns []c29Assign, vars map[string]string, locVia string, flagEq 
 					if lv.DocOnly[n] {
 						src = "env-doc"
 					}
-					en = append(en, cand(src, a, false))
+					en = append(en, cand(src, a, true))
+					if c29HasRef(a.Val) {
+						e.All = append(e.All, cand(src+"-raw", a, false))
+					}
 				}
 			}
 			e.Sources += len(fl) + len(en)
@@ -593,14 +608,16 @@ func c29Eval(assigns []c29Assign, vars map[string]string, locVia string, flagEq 
 			switch {
 			case len(fl) > 0:
 				e.Acceptable, decided = fl, true
+				e.HasRef = fl[0].Ref
 			case len(en) > 0:
 				e.Acceptable, decided = en, true
+				e.HasRef = en[0].Ref
 				// a flag of a later (shared) level vs. an env var of this level: the
 				// statement says flag > env, the README says the specific name wins.
 				for _, lv2 := range s.Levels[li+1:] {
 					for _, n := range lv2.Flags {
 						if a := flags[n]; a != nil {
-							e.Acceptable = append(e.Acceptable, cand("flag", a, false))
+							e.Acceptable = append(e.Acceptable, cand("flag", a, true))
 						}
 					}
 				}
@@ -930,7 +947,7 @@ func execC29(c c29Case) vkit.Result {
 			label = "partial"
 		}
 		want := e.Acceptable[0].Src
-		if e.HasRef {
+		if e.HasRef && label != "partial" { // a truncated list is the same deviation with or without a reference in it
 			want += "+ref"
 		}
 		reported[p] = true
@@ -967,7 +984,7 @@ func TestC29(t *testing.T) {
 		ID: "C29",
 		Rule: "rapid-generated configurations: 1-4 settings per case drawn from every observable main-config setting that has a cmdenv tag or a documented string/hostport/url/list/map type (counts in coverage: settings_with_cmdenv, string_settings_without_cmdenv), each given through a generated non-empty subset of its sources " +
 			"{--flag, env var (struct-tag name or the name the metadata documents), shared fallback flag/env (HoneycombAPIKey), file1, file2} with a distinct value per source (valid for the setting's documented type, ~10% deliberately invalid); " +
-			"file values of string-typed settings carry ${VAR} references (whole value, prefix, suffix, two adjoining, middle, brace-less) incl. inside list elements and map values, each variable set or unset. " +
+			"file values - and, less often, flag and env-var values - of string-typed settings carry ${VAR} references (whole value, prefix, suffix, two adjoining, middle, brace-less) incl. inside list elements and map values, each variable set or unset. " +
 			"Executed through the real NewCmdEnvOptions+NewConfig with the process environment set per case; judged against a precedence/expansion model and against a literal twin (one file with the model's effective values, no flags/env). " +
 			"Non-trivial: some setting has >=2 sources present. Distinct = distinct case JSON.",
 		Assumptions: []string{
@@ -977,7 +994,7 @@ func TestC29(t *testing.T) {
 			"a rejected configuration whose only invalid value is one that a higher-precedence source overrides is a don't-care (counted, not asserted)",
 			"documented default = the metadata's scalar default; settings whose metadata gives no default are not asserted when no source is present; deprecated settings (lastversion set) are out of scope",
 			"list-valued flags are given by repeating the flag (go-flags convention, as for -c); list/map env vars are comma-separated as the README says",
-			"${VAR} references are only placed in file values; a variable set to the empty string is not generated",
+			"${VAR} references are placed in file values and also in values delivered through flags and env vars (README: expansion happens once the config is fully loaded, after processing any command lines); a variable set to the empty string is not generated",
 		},
 		Gen:  genC29,
 		Exec: execC29,
